@@ -472,7 +472,9 @@ VARIANTS["C11"] = [
     M("bipartite-raw-edge-always", RB, "        else:\n            edge = s[edge_index]\n\n        H.add_node_to_edge(edge, node)", "        else:\n            edge = s[edge_index]\n        edge = s[edge_index]\n\n        H.add_node_to_edge(edge, node)", "F-CAST", "parse_bipartite_edgelist"),
     M("edgelist-no-cast", RE, "                edge = [nodetype(node) for node in edge]", "                edge = [node for node in edge]", "F-CAST", "parse_edgelist"),
     R("edgelist-cast-with-map", RE, "                edge = [nodetype(node) for node in edge]", "                edge = list(map(nodetype, edge))"),
-    R("incidence-atleast-2d", RI, "        np.loadtxt(\n            path, comments=comments, delimiter=delimiter, encoding=encoding, ndmin=2\n        ),", "        np.atleast_2d(\n            np.loadtxt(path, comments=comments, delimiter=delimiter, encoding=encoding)\n        ),"),
+    # np.atleast_2d after a squeezing load is NOT behaviour-preserving (an n x 1 file comes back as 1 x n): seed C11f showed
+    # that this variant, first listed as a refactoring, is a mutant
+    M("incidence-atleast-2d", RI, "        np.loadtxt(\n            path, comments=comments, delimiter=delimiter, encoding=encoding, ndmin=2\n        ),", "        np.atleast_2d(\n            np.loadtxt(path, comments=comments, delimiter=delimiter, encoding=encoding)\n        ),", "F-2D", "read_incidence_matrix"),
     R("write_hif-dumps-inline", RH, "    data = to_hif_dict(H)\n\n    datastring = json.dumps(data, indent=2)\n", "    data = to_hif_dict(H)\n    datastring = json.dumps(data, indent=2, sort_keys=False)\n"),
 ]
 
